@@ -151,12 +151,36 @@ def must_reject_cases():
                             ("for", "for (i(); not {v}[5]; j();) {{ x(); }}"), ("not-not", "if not (not {v}[1]) {{ x(); }}")):
             yield ("not-on-ordinary-bit-" + pname + "-" + vname, "routine"), "def 0 { a(); " + text.format(v=var) + " b(); }"
             yield ("not-on-ordinary-bit-" + pname + "-" + vname, "macro"), "macro m() { " + text.format(v=var) + " } def 0 { ~m(); }"
+    # the same in a macro that is never called
+    yield ("jump-undefined-in-uncalled-macro", "top"), "macro m() { a(); jump @nowhere; } def 0 { b(); }"
+    yield ("call-undefined-in-uncalled-macro", "top"), "macro m() { call @nowhere; a(); } macro n() { @nowhere; x(); } def 0 { ~n(); }"
+    yield ("continue-outside-loop-in-uncalled-macro", "top"), "macro m() { continue; } def 0 { b(); }"
+    yield ("break-outside-case-in-uncalled-macro", "top"), "macro m() { break; } def 0 { b(); }"
+    yield ("unknown-macro-in-uncalled-macro", "top"), "macro m() { ~nope(); } def 0 { b(); }"
     yield ("recursive-macro-direct", "top"), "macro r() { ~r(); } def 0 { ~r(); }"
     yield ("recursive-macro-indirect", "top"), "macro a() { ~b(); } macro b() { ~a(); } def 0 { ~a(); }"
     yield ("recursive-macro-3", "top"), "macro a() { ~b(); } macro b() { ~c(); } macro c() { ~a(); } def 0 { x(); }"
     yield ("recursive-macro-unused", "top"), "macro r() { x(); ~r(); } def 0 { x(); }"
     yield ("also:macro-alias", "top"), "macro a() { alias previous; } def 0 { x(); }"
     yield ("also:for-bad-target", "top"), "def 0 for monster 3 { x(); }"
+
+
+SSBS_MARK = "//?: is-ssb-script: true\n"
+SSBS_BASES = [
+    "def 0 { a(1, 'x', CONST, $V, 1.5, {english='e', german='g'}, Position<'m', 1, 2.5>); @l; Branch($V, 1, @l); Jump(@m); @m; End(); }",
+    "coro NAME { a(); Return(); }\ndef 1 for actor 3 { b(-1); Hold(); }\ndef 2 for object OBJ { alias previous; }",
+]
+
+
+def nesting_cases():
+    """Deep nesting: the outcome must stay within the documented ones at every depth."""
+    for depth in (30, 121, 150, 400, 1200):
+        yield ("if", depth), "def 0 { " + "if (debug) { " * depth + "a();" + " }" * depth + " end; }"
+        yield ("forever", depth), "def 0 { " + "forever { " * depth + "a();" + " }" * depth + " }"
+        yield ("switch", depth), "def 0 { " + "switch ($V) { case 1: " * depth + "a();" + " }" * depth + " end; }"
+        yield ("parens", depth), "def 0 { a(" + "(" * depth + "1" + ")" * depth + "); }"
+        yield ("macro-calls", depth), "".join(f"macro m{i}() {{ ~m{i + 1}(); }} " for i in range(min(depth, 300))) + \
+            f"macro m{min(depth, 300)}() {{ x(); }} def 0 {{ ~m0(); }}"
 
 
 def degenerate_cases():
@@ -219,6 +243,7 @@ def import_cases():
     for edges in [((0, 1),), ((0, 1), (1, 2)), ((0, 1), (0, 2))]:
         yield ("imports", 3, edges, True, False), (3, edges, True, False)
         yield ("imports", 3, edges, False, True), (3, edges, False, True)
+        yield ("imports", 3, edges, False, "ssbs"), (3, edges, False, "ssbs")
 
 
 def run_import_case(cid, spec):
@@ -236,6 +261,8 @@ def run_import_case(cid, spec):
         elif routines_in_import and i == n - 1:
             body += "def 0 { stray(); }\n"
         texts[nm] = imps + body
+        if routines_in_import == "ssbs" and i == n - 1:
+            texts[nm] = SSBS_MARK + "def 0 { stray(); }\n"   # an SsbScript file (it can only hold routines)
     for i, nm in enumerate(names):
         if missing and i == n - 1:
             continue
@@ -342,9 +369,17 @@ def run_case(cid, case):
         one(case, must=not cid[1].startswith("also:"), what=repr(cid[1:]))
     elif tag == "degenerate":
         one(case, what=repr(cid[1:]))
+    elif tag == "nesting":
+        one(case, what=repr(cid[1:]))
+    elif tag == "corrupt-ssbs":
+        toks = GL.tokenize(case)
+        if outcome_of(SSBS_MARK + case)[0] != "ok":
+            return {"outcome": "base-not-ok"}
+        for ctag, toks2 in corruptions(toks, CORRUPT_ALPHABET):
+            one(SSBS_MARK + " ".join(toks2), what=repr(ctag))
     oc = "violation" if viols else "ok"
-    res = {"outcome": oc, "evals": count, "nt_count": count if tag in ("tok", "chars", "corrupt") else 0,
-           "nt": cid if tag in ("must", "degenerate") else None, "extra": {f"outcome_{k}": v for k, v in outcomes.items()}}
+    res = {"outcome": oc, "evals": count, "nt_count": count if tag in ("tok", "chars", "corrupt", "corrupt-ssbs") else 0,
+           "nt": cid if tag in ("must", "degenerate", "nesting") else None, "extra": {f"outcome_{k}": v for k, v in outcomes.items()}}
     if viols:
         res["viol"] = viols
     elif tag in ("must",) and hash(repr(cid)) % 25 == 0:
@@ -379,6 +414,10 @@ def run(tier, seed):
                     yield ("chars", k, prefix), (prefix, k)
         for cid, p in base_programs(seed, tier):
             yield ("corrupt",) + tuple(cid), p
+        for i, t in enumerate(SSBS_BASES):
+            yield ("corrupt-ssbs", i), t
+        for cid, t in nesting_cases():
+            yield ("nesting",) + cid, t
     try:
         total = runner.explore(make_cases, run_case, timeout=300.0)
     finally:
@@ -388,7 +427,7 @@ def run(tier, seed):
         rule=f"(1) all strings of <= {K} tokens over a {len(TOKENS)}-token alphabet (keywords, braces, labels, meta-attribute fragments, "
              "quotes, comment openers, line breaks) and all strings of <= 4 characters over 16 characters; (2) every single "
              "token-level corruption (delete, duplicate, swap, replace / insert each of 41 tokens at every position) of a rotating "
-             "slice of valid programs; (3) 24 statically meaningless families in each of 15 contexts (routine, if, else, elseif, "
+             "slice of valid programs, and of two SsbScript texts behind the is-ssb-script marker; nesting depths 30 .. 1200 of if / forever / switch / parentheses / macro calls; (3) 24 statically meaningless families in each of 15 contexts (routine, if, else, elseif, "
              "case, default, forever, while, for, loop in case, case in loop, macro, second routine, coroutine), recursive "
              "macros; (4) 46 degenerate programs (label-only routines, routine ids out of order / duplicate / with gaps, meta "
              "attribute corner cases, ...); (5) all 2^(n*n) import digraphs on n <= 3 files incl. self imports and cycles, missing "
